@@ -133,6 +133,15 @@ def check(run, replay_path=None):
     from verif.checks.mdibcommon import select_covering
     behs, stats = select_covering(behs, num, run.seed, k=run.pick(2, 4))
     run.note('situation_coverage', stats)
+    # test purposes (breadth-first TLC run): a shortest history of single-proposal calls for every situation label
+    res = run_tlc('ContextMC', 'Context_purpose.cfg', workers=1, timeout=1800)
+    run.add_tlc(res)
+    purposes = json_lines(res.stdout, 'BEH')
+    got = {lab for b in purposes for r in b for lab in r.get('sit', [])}
+    if not any(lab.startswith('P:pc:new:Assoc') and lab.endswith(':dis-behind-assoc') for lab in got):
+        raise MachineryError('test purpose "association meets a disassociated state behind the associated one" not reached')
+    run.note('test_purposes', len(purposes))
+    behs = purposes + behs
     traces = []
     for i, beh in enumerate(behs):
         ses = CtxSession(async_mgr=bool(i % 2))
